@@ -116,6 +116,10 @@ def run(tier, seed):
         s["steps"] = [s["steps"][0]] + abandon_steps(sol["goal"], sol["qnv"], 3)
         rs.append(s)
     chk.machine_family("abandon-random", rs, features=features)
+    # the consumer's code can also be the projection function of evaluate_bounded: every raise point,
+    # validated against spec/EvalBounded.tla (bindings undone, limit restored)
+    from . import c17
+    c17.family(chk, tier, seed, only=4)
     need = ["Close_close", "Close_drop", "Close_raise", "Close_break", "DoNativeRaise", "DoAnswer", "DoExhausted"]
     missing = [e for e in need if not chk.events.get(e)]
     if missing:
